@@ -290,7 +290,41 @@ class History:
         return self.sim
 
     def raw_garbage(self):
-        pass
+        """hostile bytes on a report channel that, by the documented framing (delivery number byte, text,
+        NUL), never name a delivery that is outstanding: out-of-range, unused, oversized, empty frames.
+        Nothing may change because of them."""
+        rng, sim = self.rng, self.sim
+        chan = rng.choice("lr")
+        used = {d for (c, d) in sim.outstanding if c == chan}
+        lim = self.limit(chan)
+        frames = []
+        for _ in range(rng.randint(1, 4)):
+            kind = rng.randrange(6)
+            free = [d for d in range(256) if d not in used]
+            if kind == 0:
+                dn = rng.choice([d for d in free if d >= lim] or free)           # out of range
+            elif kind == 1:
+                dn = rng.choice([d for d in free if d < lim] or free)            # in range but unused
+            else:
+                dn = rng.choice(free)
+            if kind == 2:
+                text = bytes(rng.randrange(1, 256) for _ in range(rng.choice([10001, 12000, 20000])))   # oversized
+            elif kind == 3:
+                text = rng.choice([b"K", b"D", b"Z"]) + bytes(rng.randrange(1, 256) for _ in range(rng.randrange(0, 40)))
+            elif kind == 4:
+                text = b""
+            else:
+                text = bytes(rng.randrange(1, 256) for _ in range(rng.randrange(1, 300)))
+            if dn == 0 and not text:
+                text = b"x"
+            frames.append(bytes([dn]) + text + b"\0")
+        data = b"".join(frames)
+        self.res.counters.inc("hostile_report_frames", len(frames))
+        self.res.counters.inc("hostile_report_bytes", len(data))
+        if used:
+            self.res.counters.inc("hostile_frames_with_deliveries_in_flight", len(frames))
+        # big frames go out in pieces (the pipe holds 64 KB; the daemon drains it at every poll)
+        sim.raw_report_bytes(chan, data)
 
     def witness(self):
         ev = []
